@@ -68,6 +68,19 @@ def sweep_window(quick):
                         0: {"name": "WIN", "chain": ch, "points": pts, "mode": mode, "seq": 7}})}
 
 
+def sweep_fine(quick):
+    """the fine (fractional) byte of every loop point takes its corner values: the exported window is decided by the word
+    address alone"""
+    for mode in (0, 1, 2, 5, 6, 3):
+        for fine in ((0x7F,) * 5, (0x80,) * 5, (0xFF,) * 5, (0xFF, 0, 0x80, 0x7F, 1), (1, 0xFF, 0, 0x80, 0xFF), (0, 0, 0xFF, 0, 0xFF)):
+            for start, e in ((0, 100), (3, CW - 1), (1, CW), (2, 4096)):
+                need = e // CW + 1
+                other = max(start, e // 2 - 3)
+                pts = [start, start, other, start, e] if mode in (1, 3) else [start, start, e, start, other]
+                yield {"sweep": "fine", "model": simple_model({0: {"name": "FINE", "chain": list(range(2, 2 + need))[::-1], "points": pts,
+                                                                   "fine": list(fine), "mode": mode, "seq": 8}})}
+
+
 def sweep_header(quick):
     for freq in range(6):
         for ver in (1, 2):
@@ -323,7 +336,8 @@ class Check(CheckBase):
     rule = ("union of exhaustive sweeps over writer-generated 2.9 MB images: (chains) sample of m in {1,2,3} clusters "
             "+ a second sample, all injective cluster assignments over pool m+2 x cluster_top {0,1,m-1}; (window) 7 loop "
             "modes x start {0,1} x end on {start, cluster-2, cluster-1 (fills cluster), cluster, 2*cluster-1} written to "
-            "the field the mode selects with a conflicting value in the other x chain order; (endmarks) every end-of-chain word 0xFFF8..0xFFFF x chain length x order; (header) 6 frequency codes "
+            "the field the mode selects with a conflicting value in the other x chain order; (fine) 6 fine-byte patterns (0x7F, 0x80, 0xFF, mixed) "
+            "for the five loop points x 6 modes x 4 windows; (endmarks) every end-of-chain word 0xFFF8..0xFFFF x chain length x order; (header) 6 frequency codes "
             "x FAT version x key x name padding; (topology) base reference graph + every single edge flip of "
             "volume->performance->patch->partial->sample relations [thorough: all pairs of flips], no volumes, four "
             "samples per partial, unreferenced sample, orphan performance; (slots) every assignment of a partial's four sample "
@@ -337,7 +351,7 @@ class Check(CheckBase):
 
     def shards(self):
         cases = []
-        for sw in (sweep_window, sweep_header, sweep_fat_header, sweep_endmarks, sweep_chains, sweep_topology, sweep_slots, sweep_names, sweep_shared_chain, sweep_high_slots):
+        for sw in (sweep_window, sweep_fine, sweep_header, sweep_fat_header, sweep_endmarks, sweep_chains, sweep_topology, sweep_slots, sweep_names, sweep_shared_chain, sweep_high_slots):
             cases.extend(sw(self.quick))
         return self.chunk(cases, 6 if self.quick else 20)
 
